@@ -33,6 +33,10 @@ type c06Hello struct {
 
 func c06U16(v int) []byte { return []byte{byte(v >> 8), byte(v)} }
 
+// c06BigPad: when set, the padding extension is 4200 bytes long, so that the hello is longer than the
+// sniffer's initial 4096-byte buffer (still far below the 16 KiB record limit).
+var c06BigPad bool
+
 func c06Build(oneShape bool) *c06Hello {
 	h := &c06Hello{}
 	var body []byte
@@ -83,8 +87,12 @@ func c06Build(oneShape bool) *c06Hello {
 	sni := append([]byte{0, 0}, c06U16(len(list)+2)...)
 	sni = append(sni, c06U16(len(list))...)
 	sni = append(sni, list...)
-	padding := append([]byte{0, 21}, c06U16(3)...)
-	padding = append(padding, 0, 0, 0)
+	padLen := 3
+	if c06BigPad {
+		padLen = 4200
+	}
+	padding := append([]byte{0, 21}, c06U16(padLen)...)
+	padding = append(padding, make([]byte, padLen)...)
 	var exts []byte
 	order := 1
 	if !oneShape || vs.Thorough() {
@@ -245,17 +253,14 @@ func c06Drain(s *ConnSniffer, want int, bufSize int) (got []byte, err error) {
 }
 
 func c06Same(a, b []byte) bool {
-	same := len(a) == len(b)
-	for i := 0; i < len(a) && i < len(b); i++ {
-		same = same && a[i] == b[i]
-	}
-	return same
+	return string(a) == string(b)
 }
 
 // Verif_C06_tls_chunked: the same well-formed hello cut into up to three reads after its record
 // header: the name is still found, every read is bounded by the one deadline fixed at construction,
 // the deadline is cleared when sniffing hands over, and the relay then reads the client's bytes intact.
 func Verif_C06_tls_chunked() {
+	c06BigPad = vs.Choice("helloLongerThan4096", 2) == 1
 	h := c06Build(true)
 	rec := append([]byte{ContentType_HandShake, 0x03, 0x01}, c06U16(len(h.bytes))...)
 	rec = append(rec, h.bytes...)
